@@ -713,6 +713,12 @@ func (c *Conn) write(b []byte) (int, error) {
 
 	if len(c.writeList) == 0 {
 		n, err := c.doWrite(b)
+		for errors.Is(err, syscall.EINTR) {
+			// interrupted before any data was written, try again: the
+			// fd is still writable, so in edge-triggered mode no writing
+			// event would follow to flush the data if it was cached.
+			n, err = c.doWrite(b)
+		}
 		if err != nil &&
 			!errors.Is(err, syscall.EINTR) &&
 			!errors.Is(err, syscall.EAGAIN) {
